@@ -1,5 +1,7 @@
 (* C04  Servers stop cancelled work and cancellation cascades.
-   Statements only.  Proofs: coq/ServerState.v, coq/ServerChainProofs.v, coq/ServerWitness.v.
+   Statements only.  Proofs: coq/ServerState.v, coq/ServerChainProofs.v, coq/ServerWitness.v,
+   coq/ServerProofsPA*.v (monitor theorem), coq/ServerExecProofs2.v (through execute()),
+   coq/ChainProofs*.v, ChainRounds*.v, ChainOracle.v (composition).
 
    (a) cancel_stops, state form (every transport, every state): a Cancel for a tracked id sets
        the abort flag of that request's handle, forgets the request (in-flight count drops) and
@@ -7,11 +9,12 @@
        buffers no response; a queued response for an untracked id is dropped (C08).
    (b) cancel_unknown_frame: a Cancel for an untracked id leaves the state unchanged.
    (c) cascade: C04_chain_cascade (end of file) over the composition of the client and server
-       models, every depth, every op list.  Kept for reference, C04_cascade_partial: over the abstract composition of an n-node chain, by
-       induction on the depth; the two client-side facts are hypotheses of the Section (to be
-       discharged from the client lemmas), the server-side fact is (a) together with the waker
+       models, every depth, every op list.  Kept for reference only, C04_cascade_partial: over the
+       abstract composition of an n-node chain, by induction on the depth; the two client-side
+       facts are hypotheses of the Section (discharged in C04_chain_cascade, which runs the
+       induction over the real composition), the server-side fact is (a) together with the waker
        contract of AbortHandle::abort (assumed, DESIGN section 4).  REAL chains of depth 1..3 are
-       run and checked on every run (part `chain` of the check).
+       run and checked on every run (parts `chain` and `compose` of the check).
    The hypothesis reuse_only_after_completion (B1) is necessary: _refuted witness.
    Monitor theorem (proved, see the end of this file; also evaluated on the real traces on every run):
      C04_monitor : forall c t0 ops, c04_ok c ops (fst (srun c t0 ops)) = true
@@ -96,6 +99,20 @@ Theorem C04_monitor : forall (T C : Type) (tp : transport T response cmsg) (ctl 
   c04_ok c ops (fst (run tp ctl tfuel c t0 ops)) = true.
 Proof. exact s04_proved. Qed.
 
+(* for a channel driven through tarpc's own execute() (ServerExec.v: futures TakeWhile/FilterMap/Map
+   transcribed, tied to the real Channel::execute by the srvx driver): stops_after_error is
+   discharged, only B1 (and the known class) remains *)
+From TarpcV Require Import ServerExec ServerExecProofs ServerExecProofs2.
+Theorem C04_monitor_exec : forall (T C : Type) (tp : transport T response cmsg) (ctl : T -> C -> T)
+    (tfuel : T -> nat) (c : cfg) (t0 : T) (eops : list (eop C)),
+  tfuel_ok tp tfuel ->
+  let ops := exec_ops tp ctl tfuel c t0 eops in
+  let v := observe c ops (exec_trace tp ctl tfuel c t0 eops) in
+  c04_ok c ops (exec_trace tp ctl tfuel c t0 eops) = true
+  /\ h_stop v = true /\ v_bad v = false /\ (h_b1 v = true -> v04 v = true /\ v08 v = true).
+Proof. exact ServerExecProofs2.C04_monitor_exec. Qed.
+
+Print Assumptions C04_monitor_exec.
 Print Assumptions C04_cancel_stops_tracked.
 Print Assumptions C04_aborted_never_progresses.
 Print Assumptions C04_cancel_unknown_frame.
@@ -145,11 +162,7 @@ Print Assumptions C04_chain_cascade.
 
 (* SettleAll terminates: the last statement of the composition *)
 From TarpcV Require Client Server Chain ChainSpec ChainRounds3 ChainRounds4 ChainRounds5.
-(* ============================================================================================
-   Fragment for Properties/C04.v (or C14.v): SettleAll of the chain composition terminates.
-   Everything is qualified; compiles on its own:
-     coqc -Q /verif/coq TarpcV ChainRoundsFragment.v
-   ============================================================================================ *)
+(* SettleAll of the chain composition terminates (ChainRounds0-5.v).  Everything is qualified. *)
 From Coq Require Import List Bool Arith NArith.
 Import ListNotations.
 From TarpcV Require Import Base Transport.
